@@ -19,6 +19,9 @@ import (
 	"time"
 
 	"github.com/go-logr/logr"
+	"github.com/go-logr/zapr"
+	"go.uber.org/zap"
+	"go.uber.org/zap/zapcore"
 
 	"go.minekube.com/gate/pkg/edition/java/proto/codec"
 	"go.minekube.com/gate/pkg/edition/java/proxy/zzverif/pktgen"
@@ -97,10 +100,13 @@ type child struct {
 	cell    pktgen.Cell
 	cellIdx int
 	dec     *codec.Decoder
+	decLog  *codec.Decoder // same decoder with the production logger (zap via zapr) ENABLED at every verbosity
+	logged  bool           // run the current cases through decLog as well
 	res     *cellResult
 	frame   []byte
 	sample  [1]metrics.Sample
 	batch   [][]byte // payloads of the current batch (for the individual re-run)
+	batchLg []bool   // ... and whether they also went through the logger-enabled decoder
 	batchAt uint64
 	seenKey map[string]bool
 	lastHB  int
@@ -134,6 +140,23 @@ func hx(b []byte) string {
 		return fmt.Sprintf("%s…(%d bytes)", hex.EncodeToString(b[:64]), len(b))
 	}
 	return hex.EncodeToString(b)
+}
+
+// debugLogger is the logger the proxy runs with in debug mode (zapr over zap, JSON encoder, every verbosity enabled),
+// writing to io.Discard: Decoder.readPacket takes a different path when the logger is enabled (deferred "decoded packet"
+// line) and every d.log.Info call really formats its key/values (logr.Discard() drops them unformatted).
+func debugLogger() logr.Logger {
+	core := zapcore.NewCore(zapcore.NewJSONEncoder(zap.NewProductionEncoderConfig()), zapcore.AddSync(io.Discard), zapcore.Level(-127))
+	return zapr.NewLogger(zap.New(core))
+}
+
+func (c *child) newDecoders() {
+	c.dec = codec.NewDecoder(bytes.NewReader(nil), c.cell.Direction, logr.Discard())
+	c.dec.SetState(c.cell.State)
+	c.dec.SetProtocol(c.cell.Protocol)
+	c.decLog = codec.NewDecoder(bytes.NewReader(nil), c.cell.Direction, debugLogger())
+	c.decLog.SetState(c.cell.State)
+	c.decLog.SetProtocol(c.cell.Protocol)
 }
 
 // decodeOnce runs one payload through both paths; real=true sends non-error panics through the
@@ -186,6 +209,27 @@ func (c *child) decodeOnce(payload []byte, real bool) {
 	}
 }
 
+// decodeLogged is path 3: the same payload through a decoder whose logger is ENABLED (configuration switch on the decode
+// path: Decoder.readPacket adds a deferred log line and every log call really formats its arguments).
+func (c *child) decodeLogged(payload []byte) {
+	tn := pktgen.TypeName(c.cell.Type)
+	c.frame = append(c.frame[:0], varint(len(payload))...)
+	c.frame = append(c.frame, payload...)
+	c.decLog.SetReader(bytes.NewReader(c.frame))
+	ctx2, err2 := c.decLog.Decode()
+	if err2 == nil && ctx2 == nil {
+		c.violation(tn+"/neither-packet-nor-error(logger-enabled)", fmt.Sprintf("%s: Decoder.Decode with an enabled logger returned (nil, nil) for payload %s", c.cell, hx(payload)), payload)
+	}
+	switch {
+	case err2 == nil:
+		c.res.Classes["logger-enabled/outcome:packet"]++
+	case ctx2 != nil:
+		c.res.Classes["logger-enabled/outcome:packet+left-bytes-error"]++
+	default:
+		c.res.Classes["logger-enabled/outcome:error"]++
+	}
+}
+
 func budget(n int) uint64 { return uint64(perByteBudget*n + fixedBudget) }
 
 // run is called for every case of the enumeration.
@@ -203,7 +247,11 @@ func (c *child) run(payload []byte) {
 		c.res.Nontriv++
 	}
 	c.batch = append(c.batch, append([]byte(nil), payload...))
+	c.batchLg = append(c.batchLg, c.logged)
 	c.decodeOnce(payload, false)
+	if c.logged {
+		c.decodeLogged(payload)
+	}
 }
 
 // endBatch checks the allocation of the cases since the last endBatch. If the whole batch stayed
@@ -217,7 +265,7 @@ func (c *child) endBatch() {
 		own += uint64(len(p)) + 64
 	}
 	if delta > own+fixedBudget/2 {
-		for _, p := range c.batch {
+		for bi, p := range c.batch {
 			// cheap estimate first (runtime/metrics lags by at most the per-P caches), exact numbers
 			// (ReadMemStats stops the world) only when the estimate is not clearly within budget
 			b0 := c.allocNow()
@@ -227,6 +275,19 @@ func (c *child) endBatch() {
 				before := exactAlloc()
 				c.decodeOnce(p, false)
 				d = exactAlloc() - before
+			}
+			if c.batchLg[bi] { // the logger-enabled decode is measured on its own against the same budget
+				b0 = c.allocNow()
+				c.decodeLogged(p)
+				dl := c.allocNow() - b0
+				if dl > budget(len(p))/2 {
+					before := exactAlloc()
+					c.decodeLogged(p)
+					dl = exactAlloc() - before
+				}
+				if dl > d {
+					d = dl
+				}
 			}
 			if d > c.res.MaxAlloc {
 				c.res.MaxAlloc = d
@@ -242,6 +303,7 @@ func (c *child) endBatch() {
 		c.res.MaxAlloc = delta
 	}
 	c.batch = c.batch[:0]
+	c.batchLg = c.batchLg[:0]
 	c.batchAt = c.allocNow()
 }
 
@@ -259,11 +321,21 @@ func (c *child) doCell(idx int, cell pktgen.Cell, firstOfRegistry bool) {
 	c.seenKey = map[string]bool{}
 	fmt.Fprintf(c.out, "CELL %d\n", idx)
 	c.out.Flush()
-	c.dec = codec.NewDecoder(bytes.NewReader(nil), cell.Direction, logr.Discard())
-	c.dec.SetState(cell.State)
-	c.dec.SetProtocol(cell.Protocol)
+	c.newDecoders()
 	g := pktgen.NewGen(cell)
 	seeds := g.Seeds(c.r.Thorough(), 400)
+	if extra := pktgen.ExtraSeeds(cell); len(extra) > 0 {
+		// wire shapes only the peer can produce (see pktgen.ExtraSeeds); each must be a VALID encoding
+		for _, s := range extra {
+			p := cell.New()
+			if err := p.Decode(cell.Ctx(), bytes.NewReader(s.Data)); err != nil {
+				c.res.Notes = append(c.res.Notes, fmt.Sprintf("hand-made seed %s of %s does not decode (%v): not a valid seed", s.Label, cell, err))
+				continue
+			}
+			c.res.Classes["seed:"+s.Label]++
+			seeds = append(seeds, s)
+		}
+	}
 	c.res.Seeds = len(seeds)
 	c.res.Classes["type:"+pktgen.TypeName(cell.Type)]++
 	id := varint(int(cell.ID))
@@ -276,13 +348,15 @@ func (c *child) doCell(idx int, cell pktgen.Cell, firstOfRegistry bool) {
 		return buf
 	}
 	c.batch = c.batch[:0]
+	c.batchLg = c.batchLg[:0]
 	c.batchAt = c.allocNow()
 	for si, s := range seeds {
 		d := s.Data
 		if si == 0 {
 			c.res.Sample = map[string]string{"cell": cell.String(), "seed": s.Label, "encoding": hx(d)}
 		}
-		// the valid encoding itself
+		// the valid encoding itself (from here to the end of the token mutations also with the logger enabled)
+		c.logged = true
 		c.run(mk(d))
 		c.endBatch()
 		// every truncation prefix
@@ -308,6 +382,7 @@ func (c *child) doCell(idx int, cell pktgen.Cell, firstOfRegistry bool) {
 			c.heartbeat()
 		}
 		c.res.Classes["mutation:hostile-token@offset"] += int64(len(d) * len(tokens))
+		c.logged = false
 		// all 256 values at each of the first 12 offsets
 		for off := 0; off < len(d) && off < 12; off++ {
 			for b := 0; b < 256; b++ {
@@ -339,13 +414,15 @@ func (c *child) doCell(idx int, cell pktgen.Cell, firstOfRegistry bool) {
 		c.endBatch()
 		c.res.Classes[fmt.Sprintf("structural:index-graph<=%d-nodes", maxNodes)] += int64(n)
 	}
-	// all short payloads for this packet id
+	// all short payloads for this packet id (with the logger enabled as well)
+	c.logged = true
 	c.run(mk())
 	for a := 0; a < 256; a++ {
 		c.run(mk([]byte{byte(a)}))
 	}
 	c.endBatch()
 	c.res.Classes["short-payload:<=1 byte"] += 257
+	c.logged = false
 	if c.r.Thorough() {
 		for a := 0; a < 256; a++ {
 			for b := 0; b < 256; b++ {
@@ -411,9 +488,7 @@ func runChild(r *vrt.R) {
 		c.cell = cell
 		c.res = &cellResult{Classes: map[string]int64{}}
 		c.seenKey = map[string]bool{}
-		c.dec = codec.NewDecoder(bytes.NewReader(nil), cell.Direction, logr.Discard())
-		c.dec.SetState(cell.State)
-		c.dec.SetProtocol(cell.Protocol)
+		c.newDecoders()
 		fmt.Fprintf(c.out, "CELL -1\nCASE 1 %s\n", x.Payload)
 		c.out.Flush()
 		before := exactAlloc()
